@@ -306,6 +306,10 @@ def r4(ctx: Ctx) -> None:
             m = pb[3]
             F = ("call", ("attr", ("attr", ("sym", "self"), "target_market"), "get_fundamental_price"), (), (), None)
             want = poly_of(("bin", "*", ("bin", "*", ("sym", "F"), ("attr", ("sym", "self"), "net_interest_spread")), ("const", 0.5)))
+            kept = sorted({"self." + x[2] for x in subterms(strip_ver(m)) if x[0] == "attr" and x[1] == ("sym", "self") and x[2].startswith("_")})
+            if poly_of(substitute(m, {F: ("sym", "F")})) != want and kept:
+                ctx.unrec(f, f.node, "half spread m = target's fundamental price x spread / 2 (ask - bid = fundamental x spread)", f"the half spread is read from state the agent keeps ({', '.join(kept[:3])}): whether it still equals fundamental x spread / 2 when the quote is made is not decided", short(m)[:100])
+                continue
             ctx.check(poly_of(substitute(m, {F: ("sym", "F")})) == want, f, f.node, "half spread m = target's fundamental price x spread / 2 (ask - bid = fundamental x spread)", want, poly_of(substitute(m, {F: ("sym", "F")})))
             base = pb[2]
             okb = (base[0] == "call" and key(base[1]) == "self.get_base_price") or key(base) == "self.target_market.get_market_price()"
